@@ -1243,6 +1243,11 @@ where
     }
 
     fn visit_mut_stmts(&mut self, stmts: &mut Vec<Stmt>) {
+        // declarations still pending from outside this statement list belong to an enclosing scope
+        let outer_consts = mem::take(&mut self.injecting_consts);
+        let outer_vars = mem::take(&mut self.injecting_vars);
+        let outer_slot_counter = mem::replace(&mut self.slot_counter, 1);
+
         stmts.visit_mut_children_with(self);
 
         if !self.injecting_consts.is_empty() {
@@ -1269,10 +1274,21 @@ where
             );
             self.slot_counter = 1;
         }
+
+        self.injecting_consts = outer_consts;
+        self.injecting_vars = outer_vars;
+        self.slot_counter = outer_slot_counter;
     }
 
     fn visit_mut_arrow_expr(&mut self, arrow_expr: &mut ArrowExpr) {
-        arrow_expr.visit_mut_children_with(self);
+        // declarations pending from the parameters' default values or from outside this arrow
+        // function can't be placed in its body
+        let outer_consts = mem::take(&mut self.injecting_consts);
+        let outer_vars = mem::take(&mut self.injecting_vars);
+        arrow_expr.params.visit_mut_with(self);
+        let params_consts = mem::take(&mut self.injecting_consts);
+        let params_vars = mem::take(&mut self.injecting_vars);
+        arrow_expr.body.visit_mut_with(self);
 
         if !self.injecting_consts.is_empty() || !self.injecting_vars.is_empty() {
             if let BlockStmtOrExpr::Expr(ret) = &*arrow_expr.body {
@@ -1309,6 +1325,9 @@ where
                 }));
             }
         }
+
+        self.injecting_consts.splice(0..0, outer_consts.into_iter().chain(params_consts));
+        self.injecting_vars.splice(0..0, outer_vars.into_iter().chain(params_vars));
     }
 
     fn visit_mut_expr(&mut self, expr: &mut Expr) {
